@@ -1,5 +1,5 @@
 """C05 — CFDP fixed PDU header.  Streams, implementation adapter, oracle."""
-import copy, itertools
+import array, copy, gc, itertools
 from harness import core
 from spacepackets.cfdp.pdu.header import PduHeader, AbstractPduBase
 from spacepackets.cfdp.conf import PduConfig
@@ -45,7 +45,17 @@ ASSUMPTIONS = [
     "all values in the theorems (be_encode lemmas)",
 ]
 TRUSTED = ["crcmod (only for op 1208, verify_length_and_checksum; tied bitwise in C04/family 17)"]
-EXPLORED_ONLY = []
+EXPLORED_ONLY = [
+    "op 1299 / stream explore_bytes_like_and_identity (outside the model: argument TYPES and object identity): "
+    "(a) assigning a bytes-like object that is neither bytes nor bytearray (memoryview of a writable buffer, a slice of "
+    "one, array.array('B'), a view of one, subclasses of bytearray / bytes) to source_entity_id.value / "
+    "dest_entity_id.value / transaction_seq_num.value of a header (reached through the header or through its PduConfig; "
+    "header built by the constructor or decoded) is either refused / ignored -- every view and the packed octets stay "
+    "what they were -- or has exactly the effect of assigning bytes(argument); and every view and the packed octets are "
+    "the same before and after the caller overwrites / resizes its buffer.  (b) byte-field and PduConfig objects of a "
+    "header replaced again and again by objects allocated right after the previous ones were released (CPython hands "
+    "the same address out again): pack() is the layout of the values currently stored",
+]
 
 WIDTHS = (1, 2, 4, 8)
 OP_RANGE = (1200, 1299)
@@ -207,7 +217,187 @@ def _conf_view(c):
             [int(c.trans_mode), int(c.file_flag), int(c.crc_flag), int(c.direction), int(c.seg_ctrl)]]
 
 
+
+# ------------------------------------------------------------------ values CPython hashes alike
+M61 = 2 ** 61 - 1      # CPython hashes an int modulo this prime: v and v + k * M61 have the same hash, and so have
+                       # tuples / frozen dataclasses built from them -- a dict / lru_cache keyed on a byte-field object
+                       # whose value is changed IN PLACE between such values still finds the old entry
+
+
+def colliding(v, w=8):
+    """the other values of a w-octet field with hash(value) == hash(v)"""
+    return [u for u in (v % M61 + k * M61 for k in range(9)) if 0 <= u < 256 ** w and u != v]
+
+
+COLL_SEEDS = [0, 1, 2, 4, 5, 255, 2 ** 32, 2 ** 60, M61 - 1, 0x0102030405060708 % M61]
+
+
+def collision_burst(rng, st, pack_op=(15,)):
+    """operations: pack, then the value of ONE live 8-octet byte-field object is changed in place (int or octets variant of
+    the value setter) along a chain of values with the same hash, with a pack after every change.  Fields that are
+    narrower are first replaced by 8-octet ones."""
+    ids = st["ids"]
+    wide = [i for i in range(3) if ids[2 * i + 1] == 8]
+    ops = []
+    if wide and rng.random() < 0.8:
+        which = rng.choice(wide)
+    elif rng.random() < 0.5:
+        ops.append([5, rng.choice(COLL_SEEDS), 8, rng.randrange(4)]); which = 2
+    else:
+        ops.append([4, rng.choice(COLL_SEEDS), 8, rng.choice(COLL_SEEDS), 8, rng.randrange(32)]); which = rng.randrange(2)
+    via = rng.randrange(2)
+    v = rng.choice(COLL_SEEDS + [rng.randrange(M61), rng.randrange(2 ** 64)])
+    chain = [v] + rng.sample(colliding(v), rng.randrange(1, 4))
+    if rng.random() < 0.3:
+        chain.append(v)                  # ... and back
+    ops.append(list(pack_op))
+    for x in chain:
+        if rng.random() < 0.25:
+            ops.append([12, which, rng.randrange(2) + 2 * via] + list(x.to_bytes(8, "big")) + [0xFF] * rng.choice([0, 0, 3]))
+        else:
+            ops.append([11, which, x, via])
+        ops.append(list(pack_op))
+    return ops
+
+
+# ------------------------------------------------------------------ explorations outside the model (op 1299)
+class _MyBytearray(bytearray):
+    pass
+
+
+class _MyBytes(bytes):
+    pass
+
+
+def _bytes_like(style, octets):
+    """-> (the caller's buffer object or None, the argument handed to the setter)"""
+    if style == 0:
+        buf = bytearray(octets); return buf, memoryview(buf)
+    if style == 1:
+        buf = bytearray([0x11, 0x22, 0x33] + list(octets) + [0x44]); return buf, memoryview(buf)[3:len(buf) - 1]
+    if style == 2:
+        buf = array.array("B", octets); return buf, buf
+    if style == 3:
+        buf = array.array("B", octets); return buf, memoryview(buf)
+    if style == 4:
+        buf = _MyBytearray(octets); return buf, buf
+    if style == 5:
+        return None, _MyBytes(octets)
+    buf = bytearray(octets); return buf, memoryview(buf).toreadonly()
+
+
+def _view_state(h):
+    return _hstate(h) + [_pack_res(h)]
+
+
+def _explore_hdr(ids, flags, hd, start):
+    h = _hdr(ids, flags, hd)
+    return PduHeader.unpack(bytes(h.pack())) if start == 1 else h
+
+
+def _explore_assign(a):
+    _, which, via, style, start = (list(a[0]) + [0] * 5)[:5]
+    ids, flags, hd, octets = a[1], a[2], a[3], a[4]
+    h, ref = _explore_hdr(ids, flags, hd, start), _explore_hdr(ids, flags, hd, start)
+    f = getattr(h if via == 0 else h.pdu_conf, _FIELD_ATTR[which])
+    fr = getattr(ref if via == 0 else ref.pdu_conf, _FIELD_ATTR[which])
+    s0 = _view_state(h)
+    try:
+        fr.value = bytes(octets); ref_ok = True
+    except Exception:  # noqa
+        ref_ok = False
+    sref = _view_state(ref)
+    buf, arg = _bytes_like(style, octets)
+    try:
+        f.value = arg; raised = False
+    except Exception:  # noqa
+        raised = True
+    if isinstance(arg, memoryview):
+        try:
+            arg.release()
+        except BufferError:
+            pass
+    del arg
+    s1 = _view_state(h)
+    if raised and s1 != s0:
+        return [[0, 1]]           # a refused assignment changed the header
+    if not raised and s1 != s0 and not (ref_ok and s1 == sref):
+        return [[0, 2]]           # accepted with an effect that is not the one of bytes(argument)
+    if buf is not None:
+        for i in range(len(buf)):
+            buf[i] ^= 0xFF
+        if _view_state(h) != s1:
+            return [[0, 3]]       # the header follows the caller's buffer
+        try:
+            buf.extend(b"\x00" * 8) if isinstance(buf, bytearray) else buf.extend([0] * 8)
+        except BufferError:
+            return [[0, 4]]       # the header keeps a view of the caller's buffer (it can no longer be resized)
+        if _view_state(h) != s1:
+            return [[0, 3]]
+    return [[1]]
+
+
+def _explore_identity(a):
+    """the byte-field objects / the PduConfig of one header replaced by objects created right after the old ones were
+    released (same address again): pack() must be the layout of what is stored now"""
+    rounds = a[0][1]
+    ids, flags, hd = list(a[1]), list(a[2]), list(a[3])
+    vals = a[4]
+    h = _hdr(ids, flags, hd)
+    if list(h.pack()) != layout(ids, flags, hd):
+        return [[0, 10]]
+    gc.collect()
+    for r in range(rounds):
+        x = vals[r % len(vals)]
+        which = x % 4
+        if which < 3:
+            w = ids[2 * which + 1]
+            nv = (x // 4) % 256 ** w
+            if x & 64:
+                nv = (ids[2 * which] + (x // 128) * M61) % 256 ** w   # same hash as the value stored before, where that exists
+            setattr(h.pdu_conf, _FIELD_ATTR[which], None)    # the only reference to the old field object goes away ...
+            gc.collect(0)
+            setattr(h.pdu_conf, _FIELD_ATTR[which], UnsignedByteField(nv, w))    # ... and the next one is created
+            ids[2 * which] = nv
+        else:
+            flags = [(x >> (2 + i)) & 1 for i in range(5)]
+            seqv = (x // 4) % 256 ** ids[5]
+            srcs = [h.pdu_conf.source_entity_id, h.pdu_conf.dest_entity_id]
+            h.pdu_conf = None
+            gc.collect(0)
+            h.pdu_conf = PduConfig(source_entity_id=srcs[0], dest_entity_id=srcs[1],
+                                   transaction_seq_num=UnsignedByteField(seqv, ids[5]),
+                                   trans_mode=_e(D.TransmissionMode, flags[0]), file_flag=_e(D.LargeFileFlag, flags[1]),
+                                   crc_flag=_e(D.CrcFlag, flags[2]), direction=_e(D.Direction, flags[3]),
+                                   seg_ctrl=_e(D.SegmentationControl, flags[4]))
+            del srcs
+            ids[4] = seqv
+        if list(h.pack()) != layout(ids, flags, hd):
+            return [[0, 11, r]]
+        if _fields(h)[1:3] != [ids, flags]:
+            return [[0, 12, r]]
+    return [[1]]
+
+
+def explore(a):
+    sub = a[0][0] if a and a[0] else -1
+    if sub == 0:
+        return _explore_assign(a)
+    if sub == 1:
+        # unobserved by the live-object probe's profiler, which would keep every released object alive
+        import sys
+        prof = sys.getprofile()
+        sys.setprofile(None)
+        try:
+            return _explore_identity(a)
+        finally:
+            sys.setprofile(prof)
+    raise RuntimeError("bad exploration")
+
+
 def impl(op, a):
+    if op == 1299:
+        return explore(a)
     if op == 1212:
         conf = _conf_kind(a[3][0] if a[3] else 0, a[0], a[1])
         t, meta, dlen = a[2]
@@ -281,6 +471,69 @@ def crc16_bitwise(data):
         for _ in range(8):
             s = ((s << 1) ^ 0x1021) & 0xFFFF if s & 0x8000 else (s << 1) & 0xFFFF
     return s
+
+
+_CRC_TAB = []
+for _i in range(256):
+    _s = _i << 8
+    for _ in range(8):
+        _s = ((_s << 1) ^ 0x1021) & 0xFFFF if _s & 0x8000 else (_s << 1) & 0xFFFF
+    _CRC_TAB.append(_s)
+
+
+def crc16_table(data, s=0xFFFF):
+    """the same CRC-16 (polynomial 0x1021, no reflection, no final xor), one table look-up per octet; s = start value"""
+    for b in data:
+        s = ((s << 8) & 0xFFFF) ^ _CRC_TAB[(s >> 8) ^ b]
+    return s
+
+
+def steer_crc(pdu, target):
+    """pdu: a whole packed PDU with the CRC flag set (header first, CRC-16 last).  Returns the PDU in which the 16 bits
+    that end the transaction sequence number (for a 1-octet sequence number: the last octet of the source ID and the
+    sequence number) are chosen such that the CRC-16 trailer is `target` -- every other octet is kept.  The CRC is
+    linear over GF(2) and a 16-bit window maps one-to-one onto the 16-bit remainder, so there is exactly one choice; it
+    is found by elimination on the images of the 16 window bits and CHECKED with the bitwise reference."""
+    b = list(pdu)
+    sl, ql = ((b[3] >> 4) & 7) + 1, (b[3] & 7) + 1
+    hi = 4 + sl + ql
+    lo = hi - 2
+    msg = b[:-2]
+    need = crc16_table(msg) ^ target
+    piv = {}
+    for i in range(16):
+        d = [0] * (len(msg) - lo); d[i // 8] = 0x80 >> (i % 8)
+        vec, combo = crc16_table(d, 0), 1 << i
+        for bit in range(15, -1, -1):
+            if not (vec >> bit) & 1:
+                continue
+            if bit in piv:
+                vec ^= piv[bit][0]; combo ^= piv[bit][1]
+            else:
+                piv[bit] = (vec, combo); break
+    sol = 0
+    for bit in range(15, -1, -1):
+        if (need >> bit) & 1:
+            need ^= piv[bit][0]; sol ^= piv[bit][1]
+    for i in range(16):
+        if (sol >> i) & 1:
+            b[lo + i // 8] ^= 0x80 >> (i % 8)
+    b[-2:] = [target >> 8, target & 0xFF]
+    if crc16_bitwise(b[:-2]) != target or crc16_bitwise(b) != 0:
+        raise RuntimeError("steer_crc: no solution")
+    return b
+
+
+def ids_of(b):
+    """the ID / sequence-number list of a packed header"""
+    sl, ql = ((b[3] >> 4) & 7) + 1, (b[3] & 7) + 1
+    f = lambda x: int.from_bytes(bytes(x), "big")
+    return [f(b[4:4 + sl]), sl, f(b[4 + sl + ql:4 + 2 * sl + ql]), sl, f(b[4 + sl:4 + sl + ql]), ql]
+
+
+def crc_targets(rng):
+    """CRC trailers a shortcut would trip over: all zeros (`if not crc`), all ones, a zero octet on either side, single bits"""
+    return [0x0000, 0xFFFF, rng.randrange(1, 256), rng.randrange(1, 256) << 8, rng.choice([0x0001, 0x8000, 0x0100, 0x0080, 0x00FF, 0xFF00])]
 
 
 def valid_args(ids, flags, hd):
@@ -382,6 +635,8 @@ def rand_hdr_op(rng, st):
     if k == 11:
         which = rng.randrange(3); w = ids[2 * which + 1]
         v = rng.choice(patterns(w) + [rng.randrange(256 ** w), 256 ** w, -1, ids[2 * which]]) if w in WIDTHS else rng.choice([0, 1])
+        if w == 8 and rng.random() < 0.3 and colliding(ids[2 * which]):
+            v = rng.choice(colliding(ids[2 * which]))          # same hash as the value the object holds now
         return [11, which, v, rng.randrange(2)]
     if k == 12:
         which = rng.randrange(3); w = ids[2 * which + 1] if ids[2 * which + 1] in (0,) + WIDTHS else 1
@@ -402,8 +657,11 @@ def rand_hdr_op(rng, st):
 def rand_hdr_history(rng, st, n):
     ops = []
     while len(ops) < n:
-        l = rand_hdr_op(rng, st)
-        for _ in range(2 if rng.random() < 0.15 else 1):      # the same assignment twice
+        if rng.random() < 0.05:
+            burst = collision_burst(rng, st)                   # in-place edits along values with one hash, packs in between
+        else:
+            burst = [rand_hdr_op(rng, st)] * (2 if rng.random() < 0.15 else 1)      # the same assignment twice
+        for l in burst:
             ops.append(l)
             st, _ = hdr_expect(st, l)
     return ops + [[15], [15]], st
@@ -548,6 +806,20 @@ def streams(tier, rng):
             cases.append((1208, [pdu[:-1]]))
         q = list(pdu); i = rng.randrange(len(q)); q[i] ^= 1 << rng.randrange(8)
         cases.append((1208, [q]))
+    # ... and PDUs whose (correct) CRC trailer is 0x0000 / 0xFFFF / has a zero octet / a single bit: found by steering the
+    #     sequence number (steer_crc), every width pair
+    for sl, ql in itertools.product(WIDTHS, WIDTHS):
+        for target in crc_targets(rng) * (3 if big else 1):
+            ids, flags, hd = _rand_valid(rng, sl, ql)
+            flags[2] = 1
+            hd[2] = rng.choice([2, 3, 4, 17, 40])
+            pdu = steer_crc(layout(ids, flags, hd) + [rng.randrange(256) for _ in range(hd[2])], target)
+            cases.append((1208, [pdu]))
+            cases.append((1208, [pdu + [rng.randrange(256)]]))
+            q = list(pdu); q[-1] ^= 1 << rng.randrange(8)
+            cases.append((1208, [q]))
+            q = list(pdu); q[-2:] = [(~target >> 8) & 0xFF, ~target & 0xFF]
+            cases.append((1208, [q]))
     yield "verify_length_checksum", "exact", cases
     # 8. ByteFieldGenerator.from_bytes as used by unpack
     cases = []
@@ -576,6 +848,63 @@ def streams(tier, rng):
         sfx = [rng.randrange(256) for _ in range(rng.choice([0, 0, 3, 30, 600]))]
         cases.append((1213, [p + sfx, [rng.randrange(2)]] + ops))
     yield "histories_setters_subobjects", "exact", cases
+    # 10b. values CPython hashes alike (ints modulo 2**61 - 1): 8-octet IDs / sequence numbers edited IN PLACE along such
+    #      values with a pack after every step (a cache keyed on the mutable-but-hashable byte-field objects serves stale
+    #      octets exactly there), every field, reached through the header or its PduConfig, constructor and unpack start;
+    #      and DIFFERENT header objects with such values packed / decoded / compared one after the other (value-keyed caches)
+    cases = []
+    pairs = [(1, 2 ** 61), (2, 2 ** 62), (4, 2 ** 63), (0, M61), (5, 5 + M61), (M61 - 1, 8 * M61 - 1), (2 ** 61, 2 ** 62 + 1)]
+    for rep in range(6 if big else 1):
+        for which, via, start in itertools.product(range(3), range(2), range(2)):
+            for v0, v1 in pairs + [(lambda r: (r, rng.choice(colliding(r))))(rng.randrange(2 ** 64)) for _ in range(2)]:
+                ids, flags, hd = _rand_valid(rng, 8, 8)
+                ids[2 * which] = v0
+                chain = [v1, v0, rng.choice(colliding(v0))] if rng.random() < 0.5 else [v1]
+                ops = [[15]]
+                for x in chain:
+                    ops += [[11, which, x, via] if rng.random() < 0.7 else [12, which, 2 * via + rng.randrange(2)] + list(x.to_bytes(8, "big")), [15]]
+                    if rng.random() < 0.3:
+                        ops.append([16])
+                if start == 0:
+                    cases.append((1212, [ids, flags, hd, [0]] + ops + [[15]]))
+                else:
+                    cases.append((1213, [layout(ids, flags, hd) + [rng.randrange(256) for _ in range(rng.choice([0, 5]))], [rng.randrange(2)]] + ops + [[15]]))
+    for _ in range(40 if big else 8):
+        ids, flags, hd = _rand_valid(rng, rng.choice([4, 8]), 8)
+        st = {"hd": hd, "ids": ids, "flags": flags}
+        ops = []
+        for _ in range(rng.randrange(1, 4)):
+            b = collision_burst(rng, st)
+            for l in b:
+                st, _ = hdr_expect(st, l)
+            ops += b
+        cases.append((1212, [ids, flags, hd, [0]] + ops))
+    for v0, v1 in pairs + [(lambda r: (r, rng.choice(colliding(r))))(rng.randrange(2 ** 64)) for _ in range(6)]:
+        for which in range(3):
+            base = _rand_valid(rng, 8, 8)
+            for v in (v0, v1, v0):
+                ids, flags, hd = [list(x) for x in base]
+                ids[2 * which] = v
+                cases.append((1201, [ids, flags, hd])); cases.append((1200, [ids, flags, hd]))
+                cases.append((1203, [layout(ids, flags, hd)])); cases.append((1202, [layout(ids, flags, hd)]))
+            i2 = list(base[0]); i2[2 * which] = v0
+            i3 = list(base[0]); i3[2 * which] = v1
+            cases.append((1211, [i2, base[1], base[2], i3, base[1], base[2]]))
+    yield "histories_hash_colliding_values", "exact", cases
+    # 10c. outside the model (op 1299, see EXPLORED_ONLY): bytes-like arguments of other types assigned to the value of
+    #      the byte fields of a header; field / configuration objects re-created at the address of released ones
+    cases = []
+    for which, via, style, start in itertools.product(range(3), range(2), range(7), range(2)):
+        for rep in range(3 if big else 1):
+            ids, flags, hd = _rand_valid(rng)
+            w = ids[2 * which + 1]
+            for n in (w, rng.choice([w + 1, w + 3, 2 * w, 16, 600]), rng.choice([0, w - 1])):
+                octs = [rng.choice([0, 0x80, 0xFF, rng.randrange(256)]) for _ in range(n)]
+                cases.append((1299, [[0, which, via, style, start], ids, flags, hd, octs]))
+    for _ in range(30 if big else 6):
+        ids, flags, hd = _rand_valid(rng)
+        cases.append((1299, [[1, 400 if big else 150], ids, flags, hd, [rng.randrange(2 ** 40) for _ in range(64)]]))
+    yield "explore_bytes_like_and_identity", "exact", cases
     # 11. sizes: every data-field length 0..1100 and +-8 around every multiple of 256 up to the limit through
     #     constructor + pack, the length setter and unpack; buffers of every size 0..1100 (+ 4 KiB, 64 KiB) through
     #     unpack / header_len_from_raw / verify_length_and_checksum (with and without CRC)
@@ -749,6 +1078,21 @@ def oracle(case, ires, sres):
     op, a = case
     err = ires[0][0] == 1
     code = ires[0][1] if err else None
+    if op == 1299:
+        if ires == [[0], [1]]:
+            return None
+        sub = a[0][0]
+        d = ires[1] if len(ires) > 1 else ires[0]
+        if sub == 0:
+            what = {1: "refused, but the header changed", 2: "accepted with an effect other than that of bytes(argument)",
+                    3: "the header changed when the caller overwrote its buffer afterwards",
+                    4: "the header keeps a view of the caller's buffer (the caller can no longer resize it)"}.get(d[1] if len(d) > 1 else -1, str(ires))
+            style = ["memoryview(bytearray)", "slice of a memoryview", "array.array('B')", "memoryview(array)", "bytearray subclass",
+                     "bytes subclass", "read-only memoryview"][a[0][3]]
+            return ("C05/UnsignedByteField.value/bytes-like-argument", "%s.value = %s of %s on a %s header (%s): %s" % (
+                _FIELD_ATTR[a[0][1]], style, a[4][:12], "decoded" if a[0][4] else "constructed", "via pdu_conf" if a[0][2] else "via the header", what))
+        return ("C05/PduHeader.pack/object-identity-reuse", "field / PduConfig objects replaced by ones allocated after the old ones were "
+                "released: pack() or the views do not show the stored values (%s)" % (ires[:3],))
     if op in (1212, 1213):
         ops = a[4:] if op == 1212 else a[2:]
         if op == 1212:
